@@ -21,13 +21,20 @@
 (*           x frame forms x type annotation targets                       *)
 (*   all     everything together + an unrecognised attribute x orders      *)
 (*   ver     class file versions 45.3 .. 67                                *)
+(*   members whole classes: fields and methods in every order with their   *)
+(*           own attributes (constant value, signature, annotations of     *)
+(*           every element kind, parameter annotations, method parameters, *)
+(*           exceptions, annotation default), class attributes (inner      *)
+(*           classes, enclosing method, nest, permitted subclasses, source *)
+(*           file / debug extension), module, record, unrecognised         *)
+(*           attributes at every level x pool layouts x attribute orders   *)
 (***************************************************************************)
 EXTENDS ClassRead, Json
 
 CONSTANT Tier        \* 0 = quick, 1 = thorough
 
-VARIABLES phase, fam, C, ver, E, R, s
-vars == <<phase, fam, C, ver, E, R, s>>
+VARIABLES phase, fam, C, K, ver, E, R, s
+vars == <<phase, fam, C, K, ver, E, R, s>>
 
 ---------------------------------------------------------------------------
 (* instructions *)
@@ -130,7 +137,7 @@ Versions == {<<45, 3>>, <<45, 65535>>, <<46, 0>>, <<47, 0>>, <<48, 0>>, <<49, 0>
              <<55, 7>>, <<56, 0>>, <<57, 0>>, <<58, 0>>, <<59, 0>>, <<60, 0>>, <<61, 0>>, <<62, 0>>, <<63, 0>>, <<64, 0>>, <<65, 0>>, <<66, 0>>,
              <<66, 65535>>, <<67, 0>>}
 
-Families == {"shape", "branch", "pair", "exc", "dbg", "frm", "all", "ver"} \cup (IF Tier = 1 THEN {"mix"} ELSE {})
+Families == {"shape", "branch", "pair", "exc", "dbg", "frm", "all", "ver", "members"} \cup (IF Tier = 1 THEN {"mix"} ELSE {})
 
 Sized == <<Nop, Var("iload", "load", 3), Ldc(Consts1[1], 1), Goto(4), Iinc(1, 1), Var("ret", "ret", 5)>>
 
@@ -147,7 +154,7 @@ Universe(f) ==
                            l \in {<<>>, LineAll}, v \in {<<>>, <<<<0, 4, 1, "x", "I">>, <<3, 4, 2, "y", "J">>>>}, t \in {<<>>, <<<<0, 4, 1, "x", "TT;">>>>},
                            fr \in {<<>>, <<<<2, <<>>, <<U2>>>>, <<3, <<U2, Obj, <<"long">>>>, <<>>>>>>},
                            ta \in {<<<<>>, <<>>>>, <<<<<<"local_variable", <<<<0, 4, 1>>, <<4, 4, 2>>>>>>>>, <<<<"new", <<2>>>>>>>>}, u \in {<<>>, Unk}}
-      [] f = "ver" -> {Mk(<<Ret>>)}
+      [] f \in {"ver", "members"} -> {Mk(<<Ret>>)}
 
 ---------------------------------------------------------------------------
 (* encodings *)
@@ -199,6 +206,7 @@ Encodings(f, c) ==
       [] f = "all" -> {Enc(fs, o, IF o[2] = 0 THEN 1 ELSE 2, IF o[2] = 7 THEN "full" ELSE "compact", IF o[2] = 11 THEN [DefPool EXCEPT !.order = "reverse"] ELSE DefPool) :
                            fs \in FormSeqs(c, {1}, FALSE), o \in Orders(f, c)}
       [] f = "ver" -> {Enc(<<"plain">>, <<<<>>, 0>>, 1, "compact", DefPool)}
+      [] f = "members" -> {Enc(<<"plain">>, <<<<>>, sd>>, 1, "compact", p) : p \in Pools, sd \in {0, 7, 11}}
 
 ---------------------------------------------------------------------------
 (* the class facts JSON of cfkit/FACTS.md *)
@@ -227,18 +235,71 @@ CodeJson(c) ==
 ClassJson(c, v) ==
     [version |-> v, access |-> 33, this |-> "k/C", super |-> "java/lang/Object", interfaces |-> <<>>, fields |-> <<>>,
      methods |-> <<[access |-> 9, name |-> "m", desc |-> "()V", attrs |-> [Code |-> CodeJson(c)]]>>, attrs |-> <<>>]
+(* whole classes (family "members") *)
+Anno0 == [type |-> "Lk/N;", pairs |-> <<>>]
+Anno == [type |-> "Lk/A;",
+         pairs |-> <<<<"z", [Z |-> 1]>>, <<"i", [I |-> -7]>>, <<"s", [s |-> "txt"]>>, <<"e", [e |-> [type |-> "Lk/E;", name |-> "X"]]>>,
+                     <<"c", [c |-> "[I"]>>, <<"a", ("[" :> <<[B |-> 1], [C |-> 65]>>)>>, <<"n", ("@" :> Anno0)>>, <<"j", [J |-> "5"]>>,
+                     <<"d", [D |-> "4607182418800017408"]>>, <<"f", [F |-> 1065353216]>>, <<"sh", [S |-> -2]>>>>]
+TypeAnno(target) == [target |-> target, path |-> <<<<1, 0>>>>, type |-> "Lk/T;", pairs |-> <<>>]
+Fields3 == <<[access |-> 25, name |-> "a", desc |-> "I", attrs |-> [ConstantValue |-> [int |-> 5]]],
+             [access |-> 2, name |-> "b", desc |-> "Ljava/util/List;",
+              attrs |-> [Signature |-> "Ljava/util/List<Ljava/lang/String;>;", Deprecated |-> TRUE, RuntimeInvisibleAnnotations |-> <<Anno>>,
+                         RuntimeVisibleTypeAnnotations |-> <<TypeAnno([kind |-> "field"])>>]],
+             [access |-> 4240, name |-> "c", desc |-> "[J", attrs |-> [Synthetic |-> TRUE, unknown |-> <<[name |-> "FieldLevel", bytes |-> "01"]>>]]>>
+Methods3 == <<[access |-> 9, name |-> "m", desc |-> "()V", attrs |-> [Code |-> CodeJson(Mk(<<Ret>>))]],
+              [access |-> 1025, name |-> "n", desc |-> "(IJ)V",
+               attrs |-> [Exceptions |-> <<"java/io/IOException", "k/E">>, Signature |-> "<T:Ljava/lang/Object;>(IJ)V",
+                          MethodParameters |-> <<[name |-> "p", access |-> 16], [access |-> 4096]>>,
+                          RuntimeVisibleParameterAnnotations |-> <<<<Anno0>>, <<>>>>, RuntimeInvisibleParameterAnnotations |-> <<<<>>, <<Anno0, Anno0>>>>,
+                          RuntimeVisibleAnnotations |-> <<Anno0>>,
+                          RuntimeInvisibleTypeAnnotations |-> <<TypeAnno([kind |-> "method_formal_parameter", index |-> 1]), TypeAnno([kind |-> "throws", index |-> 0])>>,
+                          unknown |-> <<[name |-> "MethodLevel", bytes |-> "cafebabe"]>>]],
+              [access |-> 1025, name |-> "d", desc |-> "()I", attrs |-> [AnnotationDefault |-> [I |-> 3], Deprecated |-> TRUE]]>>
+ClassAttrs == <<<<>>,
+                [SourceFile |-> "C.java", Signature |-> "Ljava/lang/Object;Ljava/lang/Runnable;", SourceDebugExtension |-> "SMAP",
+                 InnerClasses |-> <<[inner |-> "k/C$I", outer |-> "k/C", name |-> "I", access |-> 9], [inner |-> "k/C$1", access |-> 0]>>,
+                 EnclosingMethod |-> [class |-> "k/O", method |-> [name |-> "m", desc |-> "()V"]], NestHost |-> "k/O", Deprecated |-> TRUE,
+                 RuntimeVisibleAnnotations |-> <<Anno>>, RuntimeVisibleTypeAnnotations |-> <<TypeAnno([kind |-> "class_extends", index |-> 65535])>>,
+                 unknown |-> <<[name |-> "ClassLevel", bytes |-> ""]>>],
+                [NestMembers |-> <<"k/C$I", "k/C$1">>, PermittedSubclasses |-> <<"k/S1">>, EnclosingMethod |-> [class |-> "k/O"], Synthetic |-> TRUE]>>
+Perms3 == <<<<1, 2, 3>>, <<1, 3, 2>>, <<2, 1, 3>>, <<2, 3, 1>>, <<3, 1, 2>>, <<3, 2, 1>>>>
+PlainClass(fp, mp, ca) ==
+    [version |-> <<61, 0>>, access |-> 1057, this |-> "k/C", super |-> "java/lang/Object", interfaces |-> <<"java/lang/Runnable", "k/I">>,
+     fields |-> [q \in 1..3 |-> Fields3[Perms3[fp][q]]], methods |-> [q \in 1..3 |-> Methods3[Perms3[mp][q]]], attrs |-> ClassAttrs[ca]]
+ModuleClass(open) ==
+    [version |-> <<53, 0>>, access |-> 32768, this |-> "module-info", interfaces |-> <<>>, fields |-> <<>>, methods |-> <<>>,
+     attrs |-> [Module |-> [name |-> "m.n", access |-> (IF open THEN 32 ELSE 4096), version |-> "1.0",
+                            requires |-> <<[name |-> "java.base", access |-> 32768, version |-> "17"], [name |-> "o", access |-> 96]>>,
+                            exports |-> <<[package |-> "p/q", access |-> 0, to |-> <<"x", "y">>]>>,
+                            opens |-> <<[package |-> "p/r", access |-> 4096, to |-> <<>>]>>,
+                            uses |-> <<"k/S">>, provides |-> <<[class |-> "k/S", with |-> <<"k/I1", "k/I2">>]>>],
+                ModulePackages |-> <<"p/q", "p/r">>, ModuleMainClass |-> "k/Main"]]
+RecordClass(n) ==
+    [version |-> <<61, 0>>, access |-> 49, this |-> "k/R", super |-> "java/lang/Record", interfaces |-> <<>>,
+     fields |-> [q \in 1..n |-> [access |-> 18, name |-> "x", desc |-> "I", attrs |-> <<>>]], methods |-> <<>>,
+     attrs |-> [Record |-> [q \in 1..n |-> [name |-> "x", desc |-> "I", attrs |-> [Signature |-> "TT;", RuntimeVisibleAnnotations |-> <<Anno0>>]]]]]
+(* K = <<kind, parameters>> *)
+MemberCases == {<<"plain", fp, mp, ca>> : fp \in 1..6, mp \in (IF Tier = 1 THEN 1..6 ELSE {1, 4, 6}), ca \in 1..3}
+               \cup {<<"module", 0, 0, 0>>, <<"module", 1, 0, 0>>, <<"record", 0, 0, 0>>, <<"record", 1, 0, 0>>}
+MemberClass(k) == CASE k[1] = "plain" -> PlainClass(k[2], k[3], k[4])
+                    [] k[1] = "module" -> ModuleClass(k[2] = 1)
+                    [] k[1] = "record" -> RecordClass(k[2])
+TheClass == IF fam = "members" THEN MemberClass(K) ELSE ClassJson(C, ver)
+
 EncJson(e) ==
-    [forms |-> [q \in 1..Len(e.forms) |-> <<0, q - 1, e.forms[q]>>], frame_forms |-> e.fform, split_line_tables |-> e.split,
+    [forms |-> (IF fam = "members" THEN <<>> ELSE [q \in 1..Len(e.forms) |-> <<0, q - 1, e.forms[q]>>]), frame_forms |-> e.fform, split_line_tables |-> e.split,
      pool_order |-> e.pool.order, pool_seed |-> e.pool.seed, pool_pad |-> e.pool.pad, dedup |-> e.pool.dedup]
     @@ (IF e.seed > 0 THEN [attr_order_seed |-> e.seed] ELSE <<>>)
 
 ---------------------------------------------------------------------------
-Init == phase = "start" /\ fam = "" /\ C = <<>> /\ ver = <<>> /\ E = <<>> /\ R = <<>> /\ s = <<>>
+Init == phase = "start" /\ fam = "" /\ C = <<>> /\ K = <<>> /\ ver = <<>> /\ E = <<>> /\ R = <<>> /\ s = <<>>
 
 PickFacts ==
     /\ phase = "start"
     /\ \E f \in Families : \E c \in Universe(f) : \E v \in (IF f = "ver" THEN Versions ELSE {<<61, 0>>}) :
-          fam' = f /\ C' = c /\ ver' = v
+       \E k \in (IF f = "members" THEN MemberCases ELSE {<<>>}) :
+          fam' = f /\ C' = c /\ ver' = v /\ K' = k
     /\ phase' = "facts"
     /\ UNCHANGED <<E, R, s>>
 
@@ -249,12 +310,12 @@ PickEncoding ==
           /\ R' = Layout(C, e, <<>>)           \* static ()V: the initial frame has no locals
           /\ s' = MInit(Layout(C, e, <<>>), TRUE)
     /\ phase' = "run"
-    /\ UNCHANGED <<fam, C, ver>>
+    /\ UNCHANGED <<fam, C, K, ver>>
 
 RunStep ==
     /\ phase = "run" /\ s.ph # "done"
     /\ s' = Step(s, R)
-    /\ UNCHANGED <<phase, fam, C, ver, E, R>>
+    /\ UNCHANGED <<phase, fam, C, K, ver, E, R>>
 
 Next == PickFacts \/ PickEncoding \/ RunStep
 Spec == Init /\ [][Next]_vars
@@ -287,6 +348,7 @@ CanonEnc == Enc([q \in 1..Len(C.insns) |-> MinForm(C.insns[q])], <<Canon(C), 0>>
 InvEncodingFree == Done => LET r0 == Layout(C, CanonEnc, <<>>) IN SameCode(Result(s, R), Result(Run(r0), r0))
 
 Ok(v) == [ok |-> TRUE, v |-> v]
-Emit == Done => PrintT(ToJson([op |-> "read", fam |-> fam, facts |-> ClassJson(C, ver), enc |-> EncJson(E),
-                               exp |-> [res |-> Ok(ClassJson(C, ver)), offs |-> R.offs, len |-> R.len]]))
+Emit == Done => PrintT(ToJson([op |-> "read", fam |-> fam, facts |-> TheClass, enc |-> EncJson(E),
+                               exp |-> IF fam = "members" THEN [res |-> Ok(TheClass)]
+                                       ELSE [res |-> Ok(TheClass), offs |-> R.offs, len |-> R.len]]))
 =============================================================================
